@@ -501,9 +501,9 @@ func (g *gen) pushAddr() {
 		g.emitLocalGet(g.base)
 	case k < 7:
 		var v uint64
-		switch r.Intn(6) {
-		case 0:
-			v = 0
+		switch r.Intn(9) {
+		case 0, 6, 7, 8:
+			v = uint64(r.Intn(40))
 		case 1:
 			v = uint64(r.Intn(300))
 		case 2:
